@@ -144,8 +144,8 @@ class Controller:
     def enabled(self) -> list[str]:
         out = []
         for tid, (op, q, _x) in self.pending.items():
-            if op == "get" and self.queue_named(q).qsize() == 0:
-                continue
+            if op == "get" and _x != "timed" and self.queue_named(q).qsize() == 0:
+                continue    # an untimed get on an empty queue blocks; a timed one can always expire
             out.append(tid)
         return sorted(out)
 
@@ -216,8 +216,17 @@ class ShimQueue(_queue.Queue):
 
     def get(self, block=True, timeout=None):
         ctl = type(self).ctl
-        ctl.gate("get", self.name)
+        ctl.gate("get", self.name, "timed" if (block and timeout is not None) else None)
         tid = ctl.tid()
+        if block and timeout is not None and tid is not None and ctl.scheduled:
+            # virtual time: a timed wait may expire whenever there is nothing to take - under an imposed schedule
+            # "the thread was granted its step while the queue was empty" IS that expiry, whatever the number of
+            # seconds in the code says (today's code has no timed waits at all)
+            with self.mutex:
+                nothing = not self._qsize()
+            if nothing:
+                ctl.event("timeout", self.name, 0)
+                raise _queue.Empty
         if tid is not None:
             ctl.in_get[tid] = self.name
         try:
